@@ -591,8 +591,17 @@ def _agg_variant(blk, upto, local):
             if rv["r"] == "use" and rv["op"]["k"] == "const" and rv["op"].get("variant") and rv["op"].get("enum") in ADTS and rv["op"]["variant"] in ADTS[rv["op"]["enum"]]:
                 # a constant of a fieldless enum (`Link::Child`): the variant, hence every later `match` on it, is known
                 return (rv["op"]["variant"], None, None, ADTS[rv["op"]["enum"]].index(rv["op"]["variant"]))
-            if rv["r"] == "aggregate" and rv.get("agg") == "adt" and rv.get("adt") in ADTS and rv.get("variant") in ADTS[rv["adt"]] and not rv.get("ops"):
-                return (rv["variant"], None, None, ADTS[rv["adt"]].index(rv["variant"]))
+            if rv["r"] == "aggregate" and rv.get("agg") == "adt" and rv.get("adt") in ADTS and rv.get("variant") in ADTS[rv["adt"]]:
+                # a variant of one of the crate's own enums, with or without a payload (`HeaderField::DifatEntry(i)`)
+                op = None
+                if len(rv.get("ops") or []) == 1 and (rv["ops"][0]["k"] == "const" or (rv["ops"][0]["k"] in ("move", "copy") and not rv["ops"][0]["place"]["proj"])):
+                    op = rv["ops"][0]
+                    if op["k"] != "const":
+                        for st2 in blk["stmts"][i + 1:]:
+                            if st2["s"] == "assign" and st2["place"]["local"] == op["place"]["local"]:
+                                op = None
+                                break
+                return (rv["variant"], None, op, ADTS[rv["adt"]].index(rv["variant"]))
             if rv["r"] == "aggregate" and rv.get("agg") == "adt" and rv.get("variant") in _DISCR:
                 pay = None
                 if rv["ops"] and rv["ops"][0]["k"] in ("move", "copy") and not rv["ops"][0]["place"]["proj"]:
@@ -916,7 +925,7 @@ def thread_local_variants(fd):
                     cands[st["place"]["local"]] = i
                 elif rv["r"] == "use" and rv["op"]["k"] == "const" and rv["op"].get("variant") and rv["op"].get("enum") in ADTS and st["place"]["local"] != 0:
                     cands[st["place"]["local"]] = i
-                elif rv["r"] == "aggregate" and rv.get("agg") == "adt" and rv.get("adt") in ADTS and not rv.get("ops") and st["place"]["local"] != 0:
+                elif rv["r"] == "aggregate" and rv.get("agg") == "adt" and rv.get("adt") in ADTS and st["place"]["local"] != 0:
                     cands[st["place"]["local"]] = i
                 elif rv["r"] == "use" and rv["op"]["k"] in ("copy", "move") and not rv["op"]["place"]["proj"] and rv["op"]["place"]["local"] in single_const and st["place"]["local"] != 0 and not b.get("clone"):
                     cands[st["place"]["local"]] = i
